@@ -129,7 +129,7 @@ def summarise(I, n, it, st):
     summary = {"ivar": ivar, "count": count, "entry": {k: en for k, (en, pre) in entry.items()}, "pre": {k: pre for k, (en, pre) in entry.items()},
                "next": {}, "appends": {}, "test": test_val, "exits": list(getattr(trial, "loop_exits", [])),
                "env": trial.env, "node": n, "is_while": is_while, "assumed": list(trial.assumed[len(st.assumed):]),
-               "events": trial.events[ev0:], "result": r}
+               "events": trial.events[ev0:], "result": r, "early": list(trial.early)}
     I.loop_summaries[id(n)] = summary
     I.loop_summaries.setdefault("by_line", {})[getattr(n, "lineno", 0)] = summary
     last = {ivar: count - 1}
